@@ -671,7 +671,7 @@ func (s *projState) judgeRun(res *Result, sched Sched, forceBefore bool, oi stri
 	res.Steps += len(obs.Trace)
 	delta := s.logDelta()
 	v := s.view(delta)
-	res.event("%s run %v force=%v json=%v quiet=%v cwd=%q failed=%v log=%v perms=%v sched=%s", oi, op.Tasks, op.Force, op.JSON, op.Quiet, op.Cwd, obs.Failed, delta, obs.Perms, shortHash(strings.Join(obs.Trace, " ")))
+	res.event("%s run %v force=%v json=%v quiet=%v cwd=%q failed=%v log=%v perms=%v sched=%s", oi, op.Tasks, op.Force, op.JSON, op.Quiet, op.Cwd, obs.Failed, delta, obs.Perms, traceHash(obs.Trace))
 
 	if obs.Out.Panic != "" || obs.Out.Deadlock || obs.Out.Livelock || obs.HashLeak {
 		res.Abandoned = fmt.Sprintf("C18: invocation %s ended abnormally (%s): %s", oi, outcomeStr(obs.Out), short(obs.Out.Panic, 200))
